@@ -105,6 +105,7 @@ static int run_overload(int which, const uint8_t *exact, size_t n, const std::ve
     out.put("\x01prior", BinsonValue((int64_t)77));
     out.put("zzprior\xff", BinsonValue(std::string("left over")));
     try {
+        vw_inflight("IN-LIBRARY-CALL deserialize-overload%d (%zu input bytes)", which + 1, n);
         if (which == 0) { paint_stack(0); out.deserialize(*vec); }
         else if (which == 1) out.deserialize((n == 0 && null_for_empty) ? NULL : exact, n);
         else {
@@ -134,9 +135,10 @@ static int run_overload(int which, const uint8_t *exact, size_t n, const std::ve
             }
             out.deserialize(&p);
         }
+        vw_inflight("%s", "");
         return OUT_RETURNED;
-    } catch (const std::exception &e) { msg = e.what(); return OUT_THREW; }
-    catch (...) { msg = "non-std exception"; return OUT_THREW_OTHER; }
+    } catch (const std::exception &e) { vw_inflight("%s", ""); msg = e.what(); return OUT_THREW; }
+    catch (...) { vw_inflight("%s", ""); msg = "non-std exception"; return OUT_THREW_OTHER; }
 }
 
 static bool verify10(const uint8_t *exact, size_t n)
@@ -240,6 +242,17 @@ static void case_tree(vrng *r)
             vb_free(&e2);
             if (!okp) { char sig[80]; snprintf(sig, sizeof sig, "c15:serialize-after-replace:overload%d", ov + 1); report(sig, "serialize() after put() under a key that was already present does not give the canonical encoding of the updated object", s3.data(), s3.size()); }
             vw_count("put_replacing_existing_key", 1);
+        }
+        if (okp) {
+            /* every entry put again from its own stored value (x.put(k, x.get(k))): the tree, and serialize(), stay the same */
+            vbuf e2; memset(&e2, 0, sizeof e2);
+            vt_encode(t, &e2);
+            for (uint32_t i = 0; i < t->nkids; i++) { std::string key((const char *)t->kids[i]->name, t->kids[i]->name_len); x.put(key, x.get(key)); }
+            std::vector<uint8_t> s3 = x.serialize();
+            okp = s3.size() == e2.n && memcmp(s3.data(), e2.p, e2.n) == 0;
+            vb_free(&e2);
+            if (!okp) report("c15:serialize-after-reput", "serialize() after putting every entry again from its own value (x.put(k, x.get(k))) differs from the canonical encoding of the unchanged tree", s3.data(), s3.size());
+            vw_count("reputs_from_own_value", t->nkids);
         }
         if (okp && levels(t, 0) <= 9) {
             vbuf e2; memset(&e2, 0, sizeof e2);
